@@ -77,8 +77,9 @@ Fixpoint to_hashable (fp : bool) (v : pyval) {struct v} : result pyval :=
       | KDefault f =>
           (* to_hashable(obj.default_factory): a class or None - hashable, returned as it is *)
           do d <- hashable_mapping true items; Ok (conv (tp_map k) (PTuple [factory_val f; d]))
-      | KCounter =>                                                (* tuple(sorted(obj.items())): values NOT converted *)
-          do its <- py_sort item_lt items;
+      | KCounter =>
+          (* tuple(sorted(item for item in obj.items() if item[1] != 0)): values NOT converted, zero counts dropped *)
+          do its <- py_sort item_lt (filter (fun it : item => negb (is_zero (snd (fst it)))) items);
           Ok (conv (tp_map k) (PTuple (map (fun it : item => pair_t (fst (fst it)) (snd (fst it))) its)))
       | KDict => do d <- hashable_mapping true items; Ok (conv (tp_map k) d)
       end
